@@ -388,29 +388,39 @@ class MemFS:
         raise NotImplementedError(mode)
 
     # composite operations expanded into their steps ------------------------------------------------
-    def rmtree(self, p, ignore_errors=False, onerror=None):
+    def rmtree(self, p, ignore_errors=False, onerror=None, *, onexc=None):
+        """shutil.rmtree: errors are ignored, handed to the handler (onexc(func, path, exc) / onerror(func, path, exc_info); the walk goes
+        on when the handler returns), or raised"""
+        import sys
         p = self._norm(p)
-        try:
-            names = self.listdir(p)
-        except OSError:
+
+        def failed(func, path, exc):
             if ignore_errors:
                 return
-            raise
+            if onexc is not None:
+                onexc(func, path, exc)
+            elif onerror is not None:
+                onerror(func, path, (type(exc), exc, exc.__traceback__))
+            else:
+                raise exc
+        try:
+            names = self.listdir(p)
+        except OSError as e:
+            failed(self.listdir, p, e)
+            names = []
         for n in names:
             c = p + "/" + n
-            try:
-                if self._q_isdir(c):
-                    self.rmtree(c, ignore_errors=ignore_errors)
-                else:
+            if self._q_isdir(c):
+                self.rmtree(c, ignore_errors=ignore_errors, onerror=onerror, onexc=onexc)
+            else:
+                try:
                     self.remove(c)
-            except OSError:
-                if not ignore_errors:
-                    raise
+                except OSError as e:
+                    failed(self.remove, c, e)
         try:
             self.rmdir(p)
-        except OSError:
-            if not ignore_errors:
-                raise
+        except OSError as e:
+            failed(self.rmdir, p, e)
 
     def copyfile(self, src, dst):
         with self.open(src, "rb") as f:
@@ -791,6 +801,10 @@ def fake_os(fs):
     for n in ("replace", "rename", "remove", "unlink", "rmdir", "mkdir", "makedirs", "listdir", "stat", "walk"):
         setattr(ns, n, getattr(fs, n))
     ns.getcwd = lambda: fs.cwd
+    # permission queries / changes: everything in the model is readable and writable by the (single) user
+    ns.F_OK, ns.R_OK, ns.W_OK, ns.X_OK = _os.F_OK, _os.R_OK, _os.W_OK, _os.X_OK
+    ns.access = lambda p, mode=0, **k: fs._q_exists(p) if hasattr(fs, "_q_exists") else True
+    ns.chmod = lambda p, mode, **k: None
     ns.fspath = _os.fspath
     ns.strerror = _os.strerror
     ns.error = OSError
